@@ -34,8 +34,14 @@ def chain(rng, depth, pos='first'):
         elif r < .85: lines.append(f't op clone {cur}')
         else: lines.append(f't op add {cur},{cur}') if rng.chance(.3) else lines.append(f't op mul {cur},1') if k % 50 == 0 else lines.append(f't op add 1,{cur}')
         cur = nt; nt += 1
+    # retain_grad() on one tensor close to the root and one close to the leaves: only THEY keep their gradient after the sweep,
+    # every other intermediate releases its buffer (memory of a deep graph stays one gradient, not depth many)
+    marks = [max(2, cur - rng.randint(1, 3)), min(cur, 2 + rng.randint(0, 3))] if depth >= 10 and rng.chance(.6) else []
+    for m_ in marks: lines.append(f't retain {m_}')
     lines.append(f't bw {cur} 2 {show_floats([1.0, -2.0])}')
     lines += ['t grad 0', 't grad 1', f't grad {cur}', f't flags {cur}']
+    probe = sorted(set([2, 3, cur - 1, cur - 2, cur // 2, cur // 3] + marks + [rng.randint(2, cur) for _ in range(6)]))
+    lines += [f't grad {k}' for k in probe if 2 <= k <= cur]
     return {'kind': 'chain', 'depth': depth, 'lines': lines}
 
 
